@@ -718,7 +718,22 @@ func corrupt(r *Rng, c *vsCase, spends []*vsSpend) (name string) {
 			c.tx.Inputs[k].Hash = append([]byte{}, h...)
 		}
 	}
-	switch r.Intn(36) {
+	switch r.Intn(38) {
+	case 36, 37:
+		// the script pushes a truncated / x-only form of the key, never the key itself or its hash
+		nk := genKey(r)
+		part := nk.pub[1:]
+		if r.Bool() {
+			part = nk.pub[:32]
+		}
+		ws := append(pushData(part), 0xac)
+		in.witscript = ws
+		in.redeem = nil
+		in.nonwit = nil
+		in.wit = vsOut(r, p2wshScript(sha256b(ws)), sp.amount)
+		in.sigs = []*vsSig{{present: true, pub: nk.pub, sig: []byte{1}}}
+		c.resign(k, 0, nk, 1, ws, sp.amount, 1)
+		return "key-pushed-partially"
 	case 34, 35:
 		// signature made for the input's declared sighash type, but carrying another hash-type byte
 		j := r.Intn(len(in.sigs))
